@@ -326,6 +326,12 @@ def s2_small(tier):
                    [{'c': 'AtMostKInARow', 'k': 2, 'factor': 'A', 'level': None}]):
             out.append(spec([A], cross(['A'], ['A'], cs), 'S2'))
             out.append(spec([A], cross(['A'], ['A'], cs + [{'c': 'MinimumTrials', 'k': size + 2}]), 'S2'))
+        # the weighted factor OUTSIDE the crossing (copy-expanded), with whole-factor and single-level run-length constraints on it
+        Bx = basic('B', 3)
+        for cs in ([{'c': 'AtMostKInARow', 'k': 1, 'factor': 'A', 'level': None}], [{'c': 'AtMostKInARow', 'k': 1, 'factor': 'A', 'level': 'a0'}],
+                   [{'c': 'AtLeastKInARow', 'k': 2, 'factor': 'A', 'level': None}], [{'c': 'ExactlyK', 'k': 1, 'factor': 'A', 'level': 'a1'}],
+                   [{'c': 'Pin', 'index': 0, 'factor': 'A', 'level': 'a0'}]):
+            out.append(spec([A, Bx], cross(['A', 'B'], ['B'], cs), 'S2'))
     # a weighted crossed factor together with an Exclude / an impossible combination that removes weighted combinations
     Aw2 = basic('A', 2, [2, 1])
     B3 = basic('B', 3)
